@@ -145,6 +145,11 @@ func c06(c *Ctx) {
 			tags = append(tags, "cause="+cause)
 		}
 	}
+	// Connect from another goroutine while a Close is still waiting for a running handler
+	for k := 0; k < c.Pick(3, 12); k++ {
+		scs = append(scs, LifeScenario{Cause: "close", Closers: 1, Flood: true, Track: c.R.Bool(), ConnectDuringClose: true, GoMaxProcs: procs[k%4]})
+		tags = append(tags, "connect-during-close")
+	}
 	// Connect again while connected, every configuration
 	for _, tr := range []bool{false, true} {
 		scs = append(scs, LifeScenario{Cause: "close", Closers: 1, Flood: true, Track: tr, ConnectAgain: "early"})
@@ -163,8 +168,14 @@ func c07(c *Ctx) {
 		LifeScenario{Cause: "close", Closers: 1, Flood: true, InBacklog: 100, InSegments: 1},
 		LifeScenario{Cause: "close", Closers: 1, Flood: true, OutBacklog: 100, OutFrom: "handler", SlowServer: true},
 		LifeScenario{Cause: "close", Closers: 1, Flood: true, Reconnect: "handler", Cycles: 1},
-		LifeScenario{Cause: "cancel", Flood: true, OutBacklog: 100, OutFrom: "handler", SlowServer: true})
-	tags = append(tags, "corpus/in-backlog", "corpus/out-backlog", "corpus/reconnect-in-handler", "corpus/cancel-blocked-handler")
+		LifeScenario{Cause: "cancel", Flood: true, OutBacklog: 100, OutFrom: "handler", SlowServer: true},
+		LifeScenario{Cause: "eof", Flood: true, Track: true, InBacklog: 120, InSegments: 2, BacklogKind: "mixed"},
+		LifeScenario{Cause: "close", Closers: 1, Flood: true, Track: true, InBacklog: 40, InSegments: 1, BacklogKind: "mixed"})
+	for _, cause := range []string{"close", "eof", "cancel"} {
+		scs = append(scs, LifeScenario{Cause: cause, Closers: 1, Flood: true, HandlerPanics: true, InBacklog: 3})
+		tags = append(tags, "handler-panics-during-teardown")
+	}
+	tags = append(tags[:len(tags)-3], append([]string{"corpus/in-backlog", "corpus/out-backlog", "corpus/reconnect-in-handler", "corpus/cancel-blocked-handler", "corpus/mixed-backlog-eof", "corpus/mixed-backlog-close"}, tags[len(tags)-3:]...)...)
 	for k := 0; k < c.Pick(24, 200); k++ {
 		sc := LifeScenario{Cause: causes[c.R.N(len(causes))], Closers: c.R.Range(1, 3), Flood: c.R.P(4, 5), Track: c.R.Bool(), GoMaxProcs: []int{1, 2, 4, 16}[c.R.N(4)]}
 		tag := "plain"
@@ -172,7 +183,11 @@ func c07(c *Ctx) {
 		case 0:
 			sc.InBacklog = backs[c.R.N(len(backs))]
 			sc.InSegments = c.R.Range(1, 8)
-			tag = fmt.Sprintf("in-backlog>64=%v", sc.InBacklog > 64)
+			if c.R.Bool() {
+				sc.BacklogKind = "mixed"
+				sc.Track = true
+			}
+			tag = fmt.Sprintf("in-backlog>64=%v/%s", sc.InBacklog > 64, sc.BacklogKind)
 		case 1:
 			sc.OutBacklog = backs[c.R.N(len(backs))]
 			sc.OutFrom = c.R.Pick("handler", "user")
